@@ -328,6 +328,42 @@ func init() {
 		return p
 	}
 
+	planTable["C29"] = func(q bool) *Plan {
+		p := &Plan{Level: "model_checking", Engine: "E-seq + E-sched + E-crash",
+			Text:      "Sequences: breadth-first search over histories on keys {p1a,p1b,p2a,q} (writes with inline and value-log values, deletes, flushes, every picker compaction, close/re-open) with DropPrefix for the prefix sets {p1}, {p}, {p1,q}, {p1,p2}, {p1a,p1} (overlapping), {zz} (no match) and DropAll as transitions, from empty and from seeds whose deeper level holds one table per key; after every transition every key read by Get and both iterator directions equals the model (keys with a dropped prefix invisible, every other key unchanged, later writes accepted), levels are structurally valid and equal to MANIFEST and files. Schedules: a transaction writing a dropped and a kept key races DropPrefix / DropAll at the points of the commit pipeline and of the drop: the final state is commit-then-drop, drop-then-commit, or the commit failed with ErrBlockedWrites and left nothing. Crashes: every persistence step of histories containing DropPrefix / DropAll: after recovery the state is a commit-order prefix, or, inside a drop, every key has its pre-drop value or is absent.",
+			Note:      "Drops run without concurrent readers (documented precondition of DropAll).",
+			Technique: "explicit-state BFS over operation sequences + stateless model checking of commit vs drop + crash-point enumeration, all on the implementation",
+			Rule:      "BFS states = canonical LSM shapes; schedules up to the bound; crash points = every persistence step"}
+		seeds := [][]string{seq("Bp1a Bp2a Bq F C0"), seq("Bp1a Bp1b Bp2a Bq F C0 Sp1a F"), seq("Sp1a Sp2a Sq F")}
+		base := prm("oracle", "c29", "mode", "normal", "keyset", "drop", "keys", 4, "big", false, "drops", true, "reopen", true, "snapshots", false, "l0_tables", 1)
+		withOps := func(m map[string]any, ops string) map[string]any {
+			n := map[string]any{}
+			for k, v := range m {
+				n[k] = v
+			}
+			n["ops"] = ops
+			return n
+		}
+		big := withOps(base, "")
+		big["value_threshold"] = 1024 // 200-byte values stay inline: one table per key in the deeper level
+		if q {
+			p.Stages = []Stage{
+				bfs("lsm", 4, 50, withOps(base, "Sp1a Sp2a Sq Dp1a F C0 Yp1 Yp Yp1,q Yp1,p2 Yp1a,p1 Yzz V R")),
+				bfs("lsm", 3, 50, withOps(big, "Sp1a Sq Dp1a F C0 Yp1 Yp Yp1,q Yp1,p2 Yp1a,p1 V R"), seeds...),
+				sched("c29race", 2, 4, 40, prm("cases", 4)),
+				en("crash08", 16, 60, prm("oracle", "c29", "len", 3, "alphabet", "T2 WB F C DP DA")),
+			}
+		} else {
+			p.Stages = []Stage{
+				bfs("lsm", 5, 900, withOps(base, "Sp1a Sp1b Sp2a Sq Dp1a F C0 C1 Yp1 Yp Yp1,q Yp1,p2 Yp1a,p1 Yzz V R")),
+				bfs("lsm", 4, 600, withOps(big, "Sp1a Sq Dp1a F C0 C1 Yp1 Yp Yp1,q Yp1,p2 Yp1a,p1 V R"), seeds...),
+				sched("c29race", 3, 4, 600, prm("cases", 4)),
+				en("crash08", 16, 900, prm("oracle", "c29", "len", 5, "alphabet", "T2 TV WB F C DP DA R")),
+			}
+		}
+		return p
+	}
+
 	planTable["C30"] = func(q bool) *Plan {
 		p := &Plan{Level: "model_checking", Engine: "E-sched + E-crash",
 			Text:      "Two (three) Sequence objects on one key with bandwidth 2, each calling Next three times (retrying on error, optionally Release in between) under every interleaving up to the preemption bound of the lease transactions (points at read-timestamp wait, after the conflict check / timestamp allocation and at the lease assignment): every returned number is unique across objects, strictly increasing per object, and a Sequence object created afterwards continues above everything handed out. Crash part: a history of Next/Release calls with every persistence step as a crash point; after recovery GetSequence+Next never returns a number handed out before the crash.",
